@@ -375,13 +375,17 @@ struct DevO {
     reg: bool,   // user level: registered
     en: bool,    // user level: enabled
     dirty: bool, // a disable / unregister may not have been processed by the device task yet
+    /// the name was registered again while its previous incarnation may not have finished all its client
+    /// calls (outside C04's quantifier: "a name being re-registered only after its previous incarnation has
+    /// finished all client calls"): the per-name clauses of C04 say nothing about this name any more
+    tainted: bool,
     lc_conn: Option<bool>, // latest lifecycle hand-over on this connection: Some(true) = DBIRTH
     lc_birth: Lc, // latest lifecycle hand-over within the current node birth
 }
 
 impl Default for DevO {
     fn default() -> Self {
-        DevO { reg: false, en: false, dirty: false, lc_conn: None, lc_birth: Lc::None }
+        DevO { reg: false, en: false, dirty: false, tainted: false, lc_conn: None, lc_birth: Lc::None }
     }
 }
 
@@ -493,6 +497,10 @@ impl Oracle {
             "reg" => {
                 if !has_note("U:err:Duplicate") && !has_note("U:err:InvalidName") {
                     let d = self.devs.entry(dnum(1).unwrap()).or_default();
+                    if d.dirty || !c.qs {
+                        d.tainted = true;
+                        out.count("oracle:C04-name-reused-while-previous-incarnation-live");
+                    }
                     d.reg = true;
                     d.en = false;
                 }
@@ -618,7 +626,7 @@ impl Oracle {
                                 match kind {
                                     Kind::DBirth => {
                                         *db_count.entry(*dn).or_insert(0) += 1;
-                                        if !dv.dirty && !(dv.reg && dv.en) {
+                                        if !dv.dirty && !dv.tainted && !(dv.reg && dv.en) {
                                             out.fail(
                                                 "C04:dbirth-only-enabled-registered",
                                                 if !dv.reg { "unregistered" } else { "disabled" },
@@ -634,7 +642,7 @@ impl Oracle {
                                     }
                                     Kind::DDeath => {
                                         *dd_count.entry(*dn).or_insert(0) += 1;
-                                        if dv.lc_conn != Some(true) {
+                                        if dv.lc_conn != Some(true) && !dv.tainted {
                                             out.fail(
                                                 "C04:ddeath-only-after-dbirth",
                                                 if dv.lc_conn.is_none() { "no-dbirth-on-connection" } else { "after-ddeath" },
@@ -645,7 +653,7 @@ impl Oracle {
                                         dv.lc_birth = Lc::Death;
                                     }
                                     Kind::DData => {
-                                        if dv.lc_birth != Lc::Ok {
+                                        if dv.lc_birth != Lc::Ok && !dv.tainted {
                                             let f = match dv.lc_birth {
                                                 Lc::None => "before-dbirth-of-this-node-birth",
                                                 Lc::Pending(_) => "dbirth-not-yet-accepted",
@@ -802,7 +810,8 @@ impl Oracle {
                 }
                 if let Some(d) = pd {
                     let lc = devs0.get(&d).map(|x| x.lc_birth).unwrap_or(Lc::None);
-                    if node_ok0 && lc != Lc::Ok && (!res_err || data_calls_of_pub > 0) {
+                    let tainted = devs0.get(&d).map(|x| x.tainted).unwrap_or(false);
+                    if node_ok0 && lc != Lc::Ok && !tainted && (!res_err || data_calls_of_pub > 0) {
                         let f = match lc {
                             Lc::None => "before-dbirth-of-this-node-birth",
                             Lc::Pending(_) => "dbirth-not-yet-accepted",
@@ -875,6 +884,9 @@ impl Oracle {
             }
             let keys: BTreeSet<u32> = exp_db.keys().chain(exp_dd.keys()).chain(db_count.keys()).chain(dd_count.keys()).cloned().collect();
             for d in keys {
+                if self.devs.get(&d).map(|x| x.tainted).unwrap_or(false) {
+                    continue;
+                }
                 let (eb, ed) = (exp_db.get(&d).copied().unwrap_or(0), exp_dd.get(&d).copied().unwrap_or(0));
                 let (gb, gd) = (db_count.get(&d).copied().unwrap_or(0), dd_count.get(&d).copied().unwrap_or(0));
                 if eb != gb {
@@ -903,7 +915,10 @@ impl Oracle {
                 match self.clear_since {
                     None => self.clear_since = Some(c.now),
                     Some(t) => {
-                        if c.now - t >= 1100 && !self.reported_hang {
+                        // "bounded": the property names no constant; the implementation's own 1 s is the
+                        // model's business (trace admission). The direct oracle only calls it a hang after
+                        // a generous multiple of it.
+                        if c.now - t >= RUN_RETURN_BOUND_MS && !self.reported_hang {
                             self.reported_hang = true;
                             out.fail("C20:run-returns-in-bounded-time", "cancel", format!("no client call or callback outstanding for {} ms of virtual time and `EoN::run` has not returned; {}", c.now - t, here));
                         }
@@ -1488,6 +1503,11 @@ impl<'a> Case<'a> {
             self.stim("adv 1100");
             self.drain();
         }
+        if self.sess.cancelled && !self.sess.stopped() {
+            // still running: give it the whole bound before the direct oracle calls it a hang
+            self.stim(&format!("adv {}", RUN_RETURN_BOUND_MS));
+            self.drain();
+        }
         if self.sess.cancelled {
             self.out.count("case:cancelled");
             if self.sess.stopped() {
@@ -1665,6 +1685,9 @@ fn exhaustive(out: &mut Out, maxlen: usize) {
 }
 
 const MODES: [&str; 4] = ["try", "blk", "trysort", "blksort"];
+/// how long (virtual ms, nothing outstanding) the run loop may take to return after a cancel before the
+/// direct oracle `C20:run-returns-in-bounded-time` fires
+const RUN_RETURN_BOUND_MS: u64 = 10_000;
 const KINDS: [&str; 9] = ["SUB", "NBIRTH", "NDEATH", "NDATA", "DBIRTH", "DDEATH", "DDATA", "DISCONNECT", "*"];
 
 fn random_case(out: &mut Out, rng: &mut Rng) {
